@@ -98,5 +98,9 @@ func (fs *FS) fromOSPath(
 	if fsPath == "" {
 		fsPath = "."
 	}
+	if !hackpadfs.ValidPath(fsPath) {
+		// an unclean OS path (trailing or doubled separators, "." or ".." elements) has no FS path equivalent
+		return "", errInvalid
+	}
 	return fsPath, nil
 }
